@@ -558,6 +558,78 @@ func c04Gen(c *Ctx) {
 		in = append(in, 9, 0, 0, 9, 1, 0)
 		t.Try("random-kind1", in, nops >= 3 && len(kinds) >= 2)
 	})
+	// ---------------- deep heaps with few ties: 12-60 elements over keys 0..99, then mostly Remove / Fix / SetFix at
+	// random (inner) positions, then a full drain.  A sift that goes the wrong way at an inner node of a tree of 4+
+	// levels needs this size and a tail element from another subtree that is strictly smaller than the parent.
+	c.Each(c.N(6000, 120000), func(i int, t *T) {
+		r := t.R
+		n0 := 12 + r.Intn(49)
+		switch i % 3 {
+		case 0: // Heap with handles
+			in := []int64{1, 0}
+			for j := 0; j < n0; j++ {
+				in = append(in, 0, 0, int64(r.Intn(100)))
+			}
+			nh := n0
+			for j := 4 + r.Intn(30); j > 0; j-- {
+				x := r.Intn(100)
+				switch {
+				case x < 55:
+					in = append(in, 4, 0, int64(r.Intn(nh)))
+				case x < 70:
+					in = append(in, 6, int64(r.Intn(nh)), int64(r.Intn(100))*2000)
+				case x < 80:
+					in = append(in, 5, 0, int64(r.Intn(nh)))
+				case x < 90:
+					in = append(in, 0, 0, int64(r.Intn(100)))
+					nh++
+				default:
+					in = append(in, 1, 0, 0)
+				}
+			}
+			in = append(in, 9, 0, 0, 9, 1, 0)
+			t.Try("deep-kind1", in, true)
+		default: // Slice / generic functions
+			kind := int64(0)
+			if i%3 == 2 {
+				kind = 2
+			}
+			init := make([]int64, n0)
+			uid := int64(0)
+			for j := range init {
+				uid++
+				init[j] = int64(r.Intn(100))*1000 + uid
+			}
+			in := append([]int64{kind}, PutList(init)...)
+			in = append(in, 7, -1, 0) // Init / FromSlice: heapify
+			size := n0
+			for j := 4 + r.Intn(30); j > 0 && size > 1; j-- {
+				x := r.Intn(100)
+				uid++
+				switch {
+				case x < 55:
+					in = append(in, 4, int64(r.Intn(size)), 0)
+					size--
+				case x < 75:
+					in = append(in, 6, int64(r.Intn(size)), int64(r.Intn(100))*1000+uid)
+				case x < 90:
+					in = append(in, 0, int64(r.Intn(100))*1000+uid, 0)
+					size++
+				default:
+					in = append(in, 1, 0, 0)
+					size--
+				}
+			}
+			if kind == 0 {
+				in = append(in, 8, 0, 0)
+			} else {
+				for ; size > 0; size-- {
+					in = append(in, 1, 0, 0)
+				}
+			}
+			t.Try(fmt.Sprintf("deep-kind%d", kind), in, true)
+		}
+	})
 	// the "heap: invalid index" branch of Heap.Remove / Heap.Fix: unreachable through the API, reached by
 	// overwriting the unexported index field; compared with the model only (the judge does not cover it)
 	c.Each(c.N(600, 6000), func(i int, t *T) {
@@ -582,5 +654,5 @@ func c04Gen(c *Ctx) {
 func init() {
 	Register(&Prop{ID: "C04", Num: 4, SpecMode: "rel", Gen: c04Gen, Impl: c04Impl,
 		Shrink: c04Shrink, Describe: c04Describe,
-		Rule: "values v*1000+id with v in 0..4 compared on v only (ties everywhere). exhaustive: every op sequence up to the tier's length over boundary alphabets (Push/Pop/Peek/Remove/Fix/SetFix/ReInit/PopAll, indices -1..9; for Heap: two heaps, live/stale/foreign/unknown handles, PushElement, Init) from several initial heaps; random: 3-60 ops, Slice / generic functions / Heap handles; generic functions outside their contract (wild index, Pop on empty: panics must agree with the model); Heap index field overwritten (panic branch). Compared exactly after every op: results, Slice.Values / container, Index() of every handle. distinct = distinct case; non-trivial = at least 3 (exhaustive: 2) operations of at least 2 kinds"})
+		Rule: "values v*1000+id with v in 0..4 compared on v only (ties everywhere). exhaustive: every op sequence up to the tier's length over boundary alphabets (Push/Pop/Peek/Remove/Fix/SetFix/ReInit/PopAll, indices -1..9; for Heap: two heaps, live/stale/foreign/unknown handles, PushElement, Init) from several initial heaps; random: 3-60 ops, Slice / generic functions / Heap handles; deep heaps (12-60 elements over keys 0..99, Remove/Fix/SetFix at inner positions, drain); generic functions outside their contract (wild index, Pop on empty: panics must agree with the model); Heap index field overwritten (panic branch). Compared exactly after every op: results, Slice.Values / container, Index() of every handle. distinct = distinct case; non-trivial = at least 3 (exhaustive: 2) operations of at least 2 kinds"})
 }
